@@ -1,10 +1,9 @@
 """Shared by C03 / C08 / C12 / C16: the round-trip family (Spec.v + RoundTripRules.v)."""
 from . import common as C
 
-PARTIAL = ("PARTIAL: the round-trip theorems reach, from the entry point, FETCH responses with ENVELOPE / FLAGS / INTERNALDATE / UID / RFC822.SIZE / "
-           "RFC822 / RFC822.TEXT / RFC822.HEADER / MODSEQ / X-GM-MSGID items, n EXISTS / RECENT / EXPUNGE, VANISHED, QUOTA, status responses with the "
-           "list-free codes, and tagged completions; the other response kinds are decided by the implementation-side oracle and the "
-           "model/implementation correspondence only")
+PARTIAL = ("PARTIAL: the round-trip theorems reach every rule of the response grammar through Spec.enc_response; spellings outside the Spec relations "
+           "(quoted strings with backslash escapes, more than one trailing body-extension, a quoted transfer encoding that merely starts with a known "
+           "name, METADATA entry names containing SP/CR) are decided by the implementation-side oracle and the model/implementation correspondence only")
 
 
 def generic_run(prop, propfile, tier, seed, t0, search, rule, what, corr_streams, assumptions, extra_evidence=None):
@@ -30,6 +29,16 @@ def generic_run(prop, propfile, tier, seed, t0, search, rule, what, corr_streams
             if impl[:400] != m[:400] and impl != m:
                 raise C.Violation(prop, "correspondence parse model vs Response::from_bytes fails (model stale; the implementation-side oracle found nothing)",
                                   "stream %s\ninput %s\nimplementation: %s\nmodel:          %s" % (stream, C.show_input(h), impl[:500], m[:500]), False)
+    # the members of the relation built piece by piece in Examples_RT.v, through the real parser
+    ex = C.corpus_lines("RT")
+    if ex:
+        rows = C.parse_stream("corpus", seed, 0, stdin="\n".join(l.split()[0] for l in ex) + "\n")
+        model = C.model_parse([r[0] for r in rows])
+        for (h, impl, _), m in zip(rows, model):
+            evals += 1
+            if impl != m or not impl.startswith("OK %d " % (len(h) // 2)):
+                raise C.Violation(prop, "a member of Spec.enc_response (Examples_RT.v) is not parsed whole and alike by the implementation and the model",
+                                  "input %s\nimplementation: %s\nmodel:          %s" % (C.show_input(h), impl[:500], m[:500]), True)
     ev = dict(theorems=proof["names"], correspondence_cases=evals)
     if extra_evidence:
         ev.update(extra_evidence)
